@@ -41,21 +41,31 @@ extern qstr gh_XK[__CPROVER_constant_infinity_uint];
    (STR_LT(ID_TYPE(x), ID_TYPE(y)) || (ID_TYPE(x) == ID_TYPE(y) && \
     (STR_LT(ID_LANG(x), ID_LANG(y)) || (ID_LANG(x) == ID_LANG(y) && \
      STR_LT(ID_NAME(x), ID_NAME(y))))))))
-/* "sorted by XEP_ID_LT": std::sort is handed the comparator identityLessThan, whose own contract (identityLessThan.spec) is
-   identityLessThan(x, y) == XEP_ID_LT(x, y) for all x, y -- so the order it denotes IS the XEP order */
-#define XEP_ORDER_IDENTITY CMP_identityLessThan
-#define XEP_ORDER_OCTET ORDER_STR_LT        /* A-STR-ORDER / see not_covered: QString's order is taken as the i;octet order */
+/* XEP_ID_LT is written with STR_LT, the order of QString (A-STR-ORDER); the XEP's order is the same formula over i;octet.
+   "sorted by the XEP order" is the sorted permutation under ORDER_OCTET_4TUPLE / ORDER_OCTET.  The code hands std::sort the comparator
+   identityLessThan, whose own contract (identityLessThan.spec) is identityLessThan(x, y) == XEP_ID_LT(x, y) for all x, y, and sorts
+   strings with QString's `<`; that these give the i;octet-sorted lists is A-UTF16-OCTET (model.h) under its discriminator. */
+#define XEP_ORDER_IDENTITY ORDER_OCTET_4TUPLE
+#define XEP_ORDER_OCTET ORDER_OCTET
 
 /* ---- fields of the form: var, data-form type class and the <value/> children in the answer */
 enum { FT_SINGLE = 0, FT_MULTI = 1, FT_BOOLEAN = 2 };
 qstr __CPROVER_uninterpreted_field_key(qfield f);
 qvar __CPROVER_uninterpreted_field_value(qfield f);
-int __CPROVER_uninterpreted_field_tclass(qfield f);
+int __CPROVER_uninterpreted_field_type(qfield f);
 int __CPROVER_uninterpreted_field_xv(qfield f);
 int __CPROVER_uninterpreted_field_xvn(qfield f);
 #define F_KEY(f) __CPROVER_uninterpreted_field_key(f)
 #define F_VALUE(f) __CPROVER_uninterpreted_field_value(f)
-#define F_TCLASS(f) __CPROVER_uninterpreted_field_tclass(f)
+#define F_TYPE(f) __CPROVER_uninterpreted_field_type(f)        /* QXmppDataForm::Field::type() */
+/* the three ways QXmppDataForm::toXml writes a field's values */
+static inline int field_tclass(int type)
+{
+  if (type == QXmppDataForm_Field_Type__BooleanField) return FT_BOOLEAN;
+  if (type == QXmppDataForm_Field_Type__ListMultiField || type == QXmppDataForm_Field_Type__JidMultiField || type == QXmppDataForm_Field_Type__TextMultiField) return FT_MULTI;
+  return FT_SINGLE;
+}
+#define F_TCLASS(f) field_tclass(F_TYPE(f))
 #define F_XV(f) __CPROVER_uninterpreted_field_xv(f)
 #define F_XVN(f) __CPROVER_uninterpreted_field_xvn(f)
 bool __CPROVER_uninterpreted_form_isnull(qform f);
@@ -99,6 +109,7 @@ static inline bool qform_isNull(qform f) { return FORM_ISNULL(f); }
 static inline void qform_fields(QLst *r, qform f) { r->id = FORM_FIELDS(f); r->n = FORM_NFIELDS(f); __CPROVER_assume(r->n >= 0); }
 static inline qstr qfield_key(qfield f) { return F_KEY(f); }
 static inline qvar qfield_value(qfield f) { field_facts(f); return F_VALUE(f); }
+static inline int qfield_type(qfield f) { return F_TYPE(f); }
 
 /* ---- step 3: one identity */
 static inline qstr xep_identity_piece(qstr s, ident e)
